@@ -24,7 +24,10 @@ detect)
   cd /repo || exit 9
   git diff --quiet || { echo "DETECT: /repo is dirty"; exit 9; }
   git apply "$patch" || { echo "DETECT: patch does not apply to /repo HEAD"; exit 1; }
+  # the evidence file describes the UNCHANGED tree: keep it aside while the check runs against the seeded change
+  ev=/verif/evidence/$prop.json; [ -f "$ev" ] && cp "$ev" "$ev.keep"
   (cd /verif && ./check "$prop" --tier "$tier"); rc=$?
+  [ -f "$ev.keep" ] && mv "$ev.keep" "$ev"
   git -C /repo checkout -q -- . ; git -C /repo clean -fdq
   echo "DETECT-RESULT prop=$prop tier=$tier exit=$rc"
   ;;
